@@ -120,7 +120,7 @@ CONCAT_RULE = ("corpus fonts x (fixture texts, shuffles, slices, alphabet resamp
 def concat_search(ctx, shim, r, per_font, pc, pt, only_aat, name):
     C03mod.metamorphic_search(ctx, shim, r, per_font, pc, pt, only_aat, name, F.verify_concat, [pc, pc, pc | pt],
                               "redistributing UNSAFE_TO_CONCAT-free segments changes the result",
-                              ("AAT fonts: " if only_aat else "OpenType path: ") + CONCAT_RULE)
+                              ("AAT fonts: " if only_aat else "OpenType path: ") + CONCAT_RULE, kind="concat")
 
 
 def run(ctx):
